@@ -201,13 +201,13 @@ class C10(PropBase):
             if lt["id"] != want:
                 raise Violation(P, "accepted-wrong-id/%s" % m, "accepted %s for id %s emitted a PDU with id %s" % (m, want, lt["id"]))
             if se.role == "s" and m != "unbind" and ev["st_after"] != "CLOSED":
-                live = w.probe_in_progress(op["who"], a["id"])
+                live = w.probe_in_progress(op["who"], a["id"], pre.kinds.get(a["id"]))
                 if m in FINAL and live:
                     raise Violation(P, "final-not-retired/%s" % m, "after accepted %s(%s) a second response to the same id is "
                                     "still accepted (probe on a copy)" % (m, a["id"]))
                 if m in NONFINAL:
                     st.hit("entry_then_probe")
-                    if not live:
+                    if live is False:
                         raise Violation(P, "nonfinal-retired/%s" % m, "accepted %s(%s) retired the request: a further response "
                                         "to it is refused (probe on a copy)" % (m, a["id"]))
                 if m in FINAL:
